@@ -22,9 +22,26 @@ pub fn arg_val(args: &[String], name: &str) -> Option<String> {
 pub trait Dyn {
     fn batch(&self, cfg: &BatchCfg) -> BatchOut;
     fn replay(&self, rf: &ReplayFile) -> Result<Option<Violation>, String>;
+    /// replay file (without decisions, with the decision seed) for run `i` of a batch
+    fn replay_file_for_run(&self, engine: &str, seed: u64, i: u64, thorough: bool, v: Violation) -> ReplayFile;
 }
 
 impl<S: Scenario> Dyn for S {
+    fn replay_file_for_run(&self, engine: &str, seed: u64, i: u64, thorough: bool, v: Violation) -> ReplayFile {
+        let (case, dseed) = crate::batch::case_of_run(self, seed, i, thorough);
+        ReplayFile {
+            engine: engine.to_string(),
+            property: self.property().to_string(),
+            scenario: self.name().to_string(),
+            seed,
+            run_index: i,
+            plan: serde_json::to_value(&case).unwrap(),
+            decisions: Vec::new(),
+            decision_seed: Some(dseed),
+            violation: v,
+            shrink: serde_json::json!({"note": "not shrunk: the run aborts the process"}),
+        }
+    }
     fn batch(&self, cfg: &BatchCfg) -> BatchOut {
         run_batch(self, cfg)
     }
@@ -88,6 +105,7 @@ pub fn cmd_run(engine: &str, args: &[String], lookup: Lookup) -> i32 {
             sig_file: arg_val(args, "--child-sigs").map(PathBuf::from),
             shard,
             distinct_file: arg_val(args, "--distinct-file").map(PathBuf::from),
+            progress_file: arg_val(args, "--progress-file").map(PathBuf::from),
         };
         (scn.batch(&cfg), partial)
     } else {
@@ -101,6 +119,26 @@ pub fn cmd_run(engine: &str, args: &[String], lookup: Lookup) -> i32 {
             partial,
         )
     };
+    let mut out = out;
+    // runs that killed their shard process: report the first as a violation with a replay file
+    if let Some((i, detail)) = out.crashed_runs.first().cloned() {
+        let replay_dir = PathBuf::from(arg_val(args, "--replays").unwrap_or_else(|| "/verif/replays".into()));
+        let v = crate::batch::process_aborted(&detail);
+        let rf = scn.replay_file_for_run(engine, seed, i, thorough, v.clone());
+        let path = replay_dir.join(format!("{property}-{scenario}-{seed}-{i}-crash.json"));
+        match crate::report::write_json_atomic(&path, &serde_json::to_value(&rf).unwrap()) {
+            Err(e) => out.harness_errors.push(format!("cannot write {}: {e}", path.display())),
+            Ok(()) => match crate::batch::replay_in_fresh_process(&path) {
+                Ok(Some(got)) if got.same_kind(&v) => {
+                    out.lines.push(format!("VIOLATION property={property} replay={}", path.display()));
+                    out.lines.push(format!("  oracle={} class={} key={} :: {} ({} shard process(es) died)", v.oracle, v.class, v.key, v.message, out.crashed_runs.len()));
+                    out.violations += 1;
+                    out.partial["violations"] = serde_json::json!(out.violations);
+                }
+                other => out.harness_errors.push(format!("a shard died during run {i} ({detail}) but replaying that run in a fresh process gave {:?}", other.map(|x| x.map(|v| format!("{}/{}", v.oracle, v.class))))),
+            },
+        }
+    }
     for l in &out.lines {
         println!("{l}");
     }
@@ -148,6 +186,26 @@ pub fn cmd_replay(args: &[String], lookup: Lookup) -> i32 {
         return 2;
     };
     let child = std::env::var("VERIF_REPLAY_CHILD").is_ok();
+    if rf.violation.oracle == "no-crash" && !child {
+        // executing it would take this process down: do it in a child and judge its death
+        return match crate::batch::replay_in_fresh_process(std::path::Path::new(path)) {
+            Ok(Some(v)) => {
+                println!("REPLAY-VERDICT {}", serde_json::to_string(&Some(&v)).unwrap());
+                println!("VIOLATION property={} replay={}", rf.property, path);
+                println!("  oracle={} class={} key={} :: {}", v.oracle, v.class, v.key, v.message);
+                1
+            }
+            Ok(None) => {
+                println!("REPLAY-VERDICT null");
+                println!("replay of {path}: no violation on this tree");
+                0
+            }
+            Err(e) => {
+                eprintln!("HARNESS-ERROR {e}");
+                2
+            }
+        };
+    }
     match scn.replay(&rf) {
         Err(e) => {
             eprintln!("HARNESS-ERROR {e}");
